@@ -72,10 +72,10 @@ def shards_general(tier, scale=1.0):
 
 def shards_repetition(tier):
     if tier == "quick":
-        return [("confined", 5000)] * 8 + [("shuffle", 4000)] * 2 + [("contact", 3000), ("random", 3000), ("diagrams", 2000), ("setup", 2000)]
+        return [("confined", 5000)] * 8 + [("shuffle", 4000)] * 2 + [("contact", 3000), ("random", 3000), ("diagrams", 2000), ("setup", 3000), ("setup", 3000)]
     out = []
     for _ in range(8):
-        out += [("confined", 12000)] * 4 + [("shuffle", 10000)] + [("contact", 10000), ("random", 10000), ("diagrams", 6000)]
+        out += [("confined", 12000)] * 4 + [("shuffle", 10000)] + [("contact", 10000), ("random", 10000), ("diagrams", 6000), ("setup", 8000)]
     return out
 
 
